@@ -725,6 +725,234 @@ pub fn gen_case(rng: &mut Rng, max: usize, i: usize) -> Case {
     Case { label: format!("libzstd {} {} {}", p.describe(), kind, d.len()), frame: f, original: d, has_checksum: p.checksum, window }
 }
 
+// ------------------------------------------------------------------------------------------------
+// directed frames and MALFORMED block content
+//
+// The model behind the `dec` request lines runs the FAITHFUL block decoder (Lean `Blk.decompressBlock`, instance B of
+// `Model/FrameDecoder`), so the comparison line by line covers malformed frames too: the same error variant family
+// (`errmap.rs`: literalsHeader / literalsTooLarge / malformedSection / literals / seqHeader / sequences / exec… /
+// blockSizeTooLarge / …), the same observable state left behind, and — the decoder being reused for a good frame
+// afterwards — the same scratch after `reset`.  (After an error the programs only drain, query and reset: decoding
+// on in a failed frame is outside the documented use.)
+
+use crate::synth::{self, Block, Lit, SeqBlock};
+
+fn rle_seq(lits: Lit, ll: u8, ml: u8, of: u8, seqs: Vec<(u32, u32, u32)>) -> SeqBlock {
+    SeqBlock { lits, ll_code: ll, ml_code: ml, of_code: of, seqs, count_bytes: None, modes: None, repeat: [false; 3], trailer: vec![] }
+}
+
+/// single-segment frame (declared content size 0) around one compressed block with this body
+fn frame_of_body(body: &[u8]) -> Vec<u8> {
+    let mut f = vec![0x28, 0xB5, 0x2F, 0xFD, 0x20, 0x00];
+    let v = 1u32 | (2 << 1) | ((body.len() as u32) << 3);
+    f.extend_from_slice(&v.to_le_bytes()[..3]);
+    f.extend_from_slice(body);
+    f
+}
+
+pub struct Directed {
+    pub label: String,
+    pub frame: Vec<u8>,
+    pub expected: Option<Vec<u8>>,
+    pub window: usize,
+}
+
+/// (i) block sizes around and above 128 KiB (raw, RLE, literals only, literals + matches = the F1 shape),
+/// (iii) truncated / degenerate sequences sections
+pub fn directed_frames(rng: &mut Rng) -> Vec<Directed> {
+    let mut v = Vec::new();
+    let wdesc = 0x50u8; // 1 MiB
+    let w = synth::window_of(wdesc) as usize;
+    let mut push = |label: String, f: synth::Frame| {
+        let (bytes, exp) = synth::serialize(&f, &[]);
+        v.push(Directed { label, frame: bytes, expected: exp, window: w });
+    };
+    for &n in &[131071usize, 131072, 131073, 131074, 196608, 262143, 262144] {
+        let body = rng.bytes(n);
+        let b = if n <= 131072 { Block::Raw(body) } else { Block::Bytes { btype: 0, size: n as u32, body } };
+        push(format!("raw block of {} bytes", n), synth::Frame::simple(vec![b, Block::Raw(vec![1, 2, 3])], wdesc, true));
+        let b = if n <= 131072 { Block::Rle(0x5a, n) } else { Block::Bytes { btype: 1, size: n as u32, body: vec![0x5a] } };
+        push(format!("rle block of {} bytes", n), synth::Frame::simple(vec![Block::Raw(vec![9]), b], wdesc, false));
+        // a compressed block whose literals section alone declares n bytes
+        push(format!("rle literals of {} bytes, no sequences", n), synth::Frame::simple(vec![Block::Comp(rle_seq(Lit::Rle(7, n), 0, 0, 0, vec![]))], wdesc, false));
+    }
+    // literals + one match regenerating exactly 128 KiB / one byte more / far more (offset 1 over the literals)
+    for &(nl, mle) in &[(65533usize, 0u32), (65534, 0), (65533, 1), (100_000, 0xFFFF), (131072, 0), (1, 0xFFFF)] {
+        // ll_code 0 = no literals before the match: the literals follow it as the block's tail; a raw block in front
+        push(
+            format!("F1 shape: match 65539+{} then {} literals", mle, nl),
+            synth::Frame::simple(vec![Block::Raw(vec![0x41]), Block::Comp(rle_seq(Lit::Rle(0x42, nl), 0, 52, 2, vec![(0, mle, 0)]))], wdesc, true),
+        );
+    }
+    // several matches whose sum crosses 128 KiB at the 2nd / 3rd sequence
+    for &k in &[2usize, 3, 5] {
+        push(
+            format!("F1 shape: {} matches of 65539 bytes", k),
+            synth::Frame::simple(vec![Block::Raw(vec![0x41, 0x42]), Block::Comp(rle_seq(Lit::Raw(vec![]), 0, 52, 2, vec![(0, 0, 0); k]))], wdesc, false),
+        );
+    }
+    // (iii) sequences sections that end early: lone count bytes, count without modes, modes without tables, …
+    let lit0 = [0x00u8]; // raw literals, 0 bytes
+    let bodies: Vec<(&str, Vec<u8>)> = vec![
+        ("lone count byte 01", vec![0x01]),
+        ("lone count byte 7f", vec![0x7f]),
+        ("first byte of a 2-byte count", vec![0x80]),
+        ("first byte of a 3-byte count", vec![0xff]),
+        ("two bytes of a 3-byte count", vec![0xff, 0x01]),
+        ("2-byte count 0 (80 00)", vec![0x80, 0x00]),
+        ("2-byte count 0 then a byte", vec![0x80, 0x00, 0x00]),
+        ("count 0 then a byte", vec![0x00, 0xaa]),
+        ("no sequences section at all", vec![]),
+        ("count 1, modes RLE, no table bytes", vec![0x01, 0x54]),
+        ("count 1, modes RLE, one table byte", vec![0x01, 0x54, 0x00]),
+        ("count 1, modes RLE, tables, no bitstream", vec![0x01, 0x54, 0x00, 0x02, 0x00]),
+        ("count 1, modes predefined, no bitstream", vec![0x01, 0x00]),
+        ("count 1, modes repeat without tables", vec![0x01, 0xfc, 0x01]),
+        ("count 1, reserved bits in modes", vec![0x01, 0x57, 0x00, 0x02, 0x00, 0x01]),
+        ("count 1, modes FSE, garbage", vec![0x01, 0xa8, 0xff, 0xff, 0xff, 0xff]),
+        ("count 1, bitstream 00 (no end mark)", vec![0x01, 0x54, 0x00, 0x02, 0x00, 0x00]),
+    ];
+    for (what, tail) in bodies {
+        let mut body = lit0.to_vec();
+        body.extend_from_slice(&tail);
+        v.push(Directed { label: format!("sequences section: {}", what), frame: frame_of_body(&body), expected: None, window: 1 << 17 });
+        // the same behind three literals
+        let mut body = vec![0x18, b'a', b'b', b'c'];
+        body.extend_from_slice(&tail);
+        v.push(Directed { label: format!("literals abc + sequences section: {}", what), frame: frame_of_body(&body), expected: None, window: 1 << 17 });
+    }
+    // the empty block body and literals headers that end early
+    for body in [vec![], vec![0x04], vec![0x0c, 0x00], vec![0x02], vec![0x03, 0x00, 0x00], vec![0x08, 0x61], vec![0x01, 0x62], vec![0x09]] {
+        v.push(Directed { label: format!("block body {}", hex(&body)), frame: frame_of_body(&body), expected: None, window: 1 << 17 });
+    }
+    v
+}
+
+/// one frame through the three front ends; the block-driver's decoder is then reused for a good frame
+fn run_frame(run: &mut Run, rng: &mut Rng, d: &Directed, probe: Option<&Case>) {
+    let has_ck = d.frame.len() > 4 && d.frame[4] & 4 != 0;
+    let truth = |n: usize| d.expected.as_ref().map(|e| Truth { original: e.clone(), frame_len: n, complete: true, has_checksum: has_ck });
+    {
+        let mut p = Prog::new(run, &d.label);
+        let fr = frags(rng);
+        p.set_src(d.frame.clone(), fr, truth(d.frame.len()));
+        drive_blocks(&mut p, rng, d.window);
+        if let Some(c) = probe {
+            p.set_src(c.frame.clone(), vec![], Some(Truth { original: c.original.clone(), frame_len: c.frame.len(), complete: true, has_checksum: c.has_checksum }));
+            drive_blocks(&mut p, rng, c.window);
+            p.run.stat("good_frame_after_directed_or_malformed", 1);
+        }
+    }
+    {
+        let mut p = Prog::new(run, &d.label);
+        let fr = frags(rng);
+        p.set_src(d.frame.clone(), fr, truth(d.frame.len()));
+        drive_streaming(&mut p, rng);
+    }
+    {
+        let mut p = Prog::new(run, &d.label);
+        p.truth = truth(d.frame.len());
+        drive_from_to(&mut p, rng, &d.frame);
+    }
+}
+
+/// (ii) a match at offset exactly = window (and window ± 1) as the first thing decoded right after a drain that
+/// left exactly `window` bytes in the buffer; also without the drain
+fn offset_at_window(run: &mut Run, rng: &mut Rng) {
+    for wdesc in [0u8, 1, 8] {
+        let w = synth::window_of(wdesc) as usize;
+        for delta in [-1i64, 0, 1] {
+            for extra in [0usize, 1, 700] {
+                let off = (w as i64 + delta) as u32;
+                // offset value = offset + 3 = 2^code + extra bits
+                let ov = off + 3;
+                let code = 31 - ov.leading_zeros();
+                let ofe = ov - (1 << code);
+                let first = rng.bytes(w);
+                let second = rng.bytes(extra);
+                let mut blocks = vec![Block::Raw(first)];
+                if extra > 0 {
+                    blocks.push(Block::Raw(second));
+                }
+                let n_before = blocks.len();
+                blocks.push(Block::Comp(rle_seq(Lit::Raw(vec![b'x', b'y', b'z']), 0, 10, code as u8, vec![(0, 0, ofe)])));
+                blocks.push(Block::Raw(vec![b'!']));
+                let f = synth::Frame::simple(blocks, wdesc, true);
+                let (bytes, exp) = synth::serialize(&f, &[]);
+                for drain in [true, false] {
+                    let label = format!("match at offset window{:+} (window {}, {} bytes before, {})", delta, w, w + extra, if drain { "drained" } else { "not drained" });
+                    let mut p = Prog::new(run, &label);
+                    p.set_src(bytes.clone(), vec![], exp.as_ref().map(|e| Truth { original: e.clone(), frame_len: bytes.len(), complete: true, has_checksum: true }));
+                    if !p.reset() {
+                        continue;
+                    }
+                    p.blocks(&format!("blocks:{}", n_before));
+                    if drain {
+                        // leaves exactly `window` bytes behind
+                        match rng.below(3) {
+                            0 => p.collect(),
+                            1 => p.read(1 << 20),
+                            _ => p.to_writer(4096, usize::MAX >> 8, false),
+                        }
+                    }
+                    p.blocks("blocks:1");
+                    if !p.is_failed() {
+                        p.blocks("all");
+                    }
+                    p.collect();
+                    p.run.stat("offset_at_window_programs", 1);
+                }
+                // and under the random drivers
+                run_frame(run, rng, &Directed { label: format!("match at offset window{:+} (window {})", delta, w), frame: bytes.clone(), expected: exp.clone(), window: w }, None);
+            }
+        }
+    }
+}
+
+/// frames with corrupted block content: byte mutations of good frames, and the structure-aware hostile frames
+fn malformed(run: &mut Run, rng: &mut Rng, thorough: bool) {
+    let n = if thorough { 500 } else { 40 };
+    for i in 0..n {
+        let c = gen_case(rng, if thorough { 20_000 } else { 6_000 }, i);
+        if c.frame.len() < 12 {
+            continue;
+        }
+        let mut f = c.frame.clone();
+        // leave the frame header alone (the header paths are covered elsewhere; a mutated window descriptor only
+        // makes the real decoder allocate): mutate 1-3 bytes behind it
+        let lo = 8.min(f.len() - 1);
+        for _ in 0..rng.range(1, 3) {
+            let at = lo + rng.below((f.len() - lo) as u64) as usize;
+            match rng.below(4) {
+                0 => f[at] ^= 1 << rng.below(8),
+                1 => f[at] = rng.next() as u8,
+                2 => f[at] = f[at].wrapping_add(1),
+                _ => f[at] = *rng.pick(&[0u8, 0xff, 0x80, 0x7f]),
+            }
+        }
+        if rng.chance(1, 6) {
+            let cut = lo + rng.below((f.len() - lo) as u64) as usize;
+            f.truncate(cut);
+        }
+        let same = f == c.frame;
+        let d = Directed { label: format!("mutated: {}", c.label), frame: f, expected: if same { Some(c.original.clone()) } else { None }, window: c.window };
+        let probe = if i % 2 == 0 { Some(&c) } else { None };
+        run_frame(run, rng, &d, probe);
+        run.stat("mutated_frames", 1);
+    }
+    let n = if thorough { 400 } else { 48 };
+    let probe = gen_case(rng, 3000, 2);
+    for i in 0..n {
+        let (bytes, label) = synth::hostile_frame(rng);
+        if bytes.len() > 150_000 {
+            continue;
+        }
+        let d = Directed { label: format!("hostile: {}", label), frame: bytes, expected: None, window: 1 << 17 };
+        run_frame(run, rng, &d, if i % 3 == 0 { Some(&probe) } else { None });
+        run.stat("hostile_frames_to_model", 1);
+    }
+}
+
 pub fn run(opts: &Opts) -> Run {
     let mut run = Run::new("dec");
     let mut rng = Rng::new(opts.seed ^ 0xdec0de);
@@ -903,5 +1131,14 @@ pub fn run(opts: &Opts) -> Run {
             p.run.stat("multi_frame_programs", 1);
         }
     }
+    // (f) directed frames (block sizes around and above 128 KiB, the F1 shape, degenerate sequences sections), matches at
+    // offset = window right after a drain, and malformed block content — see above
+    for d in directed_frames(&mut rng) {
+        let probe = gen_case(&mut rng, 2000, 3);
+        run_frame(&mut run, &mut rng, &d, Some(&probe));
+        run.stat("directed_frames", 1);
+    }
+    offset_at_window(&mut run, &mut rng);
+    malformed(&mut run, &mut rng, opts.thorough);
     run
 }
